@@ -119,11 +119,15 @@ impl Date {
     /// `Date` adds days
     #[inline]
     pub fn add_days(self, days: f64) -> Result<Date> {
-        let timestamp = self.0.add_days(days)?;
-        Ok(Date(Timestamp::try_from_usecs(
-            ((timestamp.usecs() as f64) / USECONDS_PER_SECOND as f64).round() as i64
-                * USECONDS_PER_SECOND,
-        )?))
+        let usecs = self.0.add_days(days)?.usecs();
+        // Rounds to the nearest second (ties away from zero) in integer arithmetic:
+        // microsecond counts beyond 2^53 are not exact in `f64`.
+        let rem = usecs % USECONDS_PER_SECOND;
+        let mut result = usecs - rem;
+        if rem.abs() * 2 >= USECONDS_PER_SECOND {
+            result += rem.signum() * USECONDS_PER_SECOND;
+        }
+        Ok(Date(Timestamp::try_from_usecs(result)?))
     }
 
     /// `Date` subtracts `Date`
